@@ -87,12 +87,18 @@ func violate(key string, detail interface{}) {
 type credCfg struct {
 	Name  string
 	Creds map[string]string
+	// Tracing: the API is built with request tracing on (what the daemon does
+	// under --tracing / observations.tracing): one more wrapper around the
+	// handler chain
+	Tracing bool
 }
 
 var credCfgs = []credCfg{
-	{"none", nil},
-	{"one", map[string]string{"alice": "wonder:land"}},
-	{"two", map[string]string{"alice": "wonder:land", "bob": "builder"}},
+	{"none", nil, false},
+	{"one", map[string]string{"alice": "wonder:land"}, false},
+	{"two", map[string]string{"alice": "wonder:land", "bob": "builder"}, false},
+	{"none+tracing", nil, true},
+	{"one+tracing", map[string]string{"alice": "wonder:land"}, true},
 }
 
 type server struct {
@@ -113,6 +119,7 @@ func newServer(t testing.TB, cc credCfg) *server {
 	cfg.HTTPListenAddr = []ma.Multiaddr{a}
 	cfg.ReadTimeout, cfg.ReadHeaderTimeout, cfg.WriteTimeout, cfg.IdleTimeout = 0, 0, 0, 0
 	cfg.BasicAuthCredentials = cc.Creds
+	cfg.Tracing = cc.Tracing
 	api, err := rest.NewAPI(context.Background(), cfg)
 	if err != nil {
 		t.Fatal(err)
